@@ -189,6 +189,8 @@ struct R<Tracked>
 
 // ------------------------------------------------------------------ schedule bursts
 static bool g_serialBackend = false;
+static void judgeStallsFwd();
+static void watchdogExpired();
 #if defined(RKCOMMON_TASKING_TBB)
 static const char *kBackendName = "tbb";
 #elif defined(RKCOMMON_TASKING_OMP)
@@ -267,6 +269,8 @@ static bool scheduleBurst(int B, bool nested, int bodyDelay, const std::string &
     }
     // leak the counters on purpose: late tasks may still write to them
     exec.release();
+    if (report)
+      watchdogExpired();
     return false;
   }
   sleepUs(200);  // grace: a second execution would show up now
@@ -291,6 +295,76 @@ static bool scheduleBurst(int B, bool nested, int bodyDelay, const std::string &
     exec.release();
   vh::count("closures_executed", total);
   return true;
+}
+
+// a tree on which submitted work gets lost costs one watchdog period per case: after a few expiries the process gives up
+// (the driver then counts it heavily towards its budget of abnormal cases)
+static int g_watchdogExpiries = 0;
+static void watchdogExpired()
+{
+  if (++g_watchdogExpiries >= 3) {
+    judgeStallsFwd();
+    vh::abandonChild();
+  }
+}
+
+// ---- a submitter that stays busy: a running task hands a job to schedule()/async() and then waits (bounded) for that
+// job's result without returning to the scheduler. Only another worker can run the job - it has to be found in the
+// submitting worker's queue. One such submitter at a time, so that there is always a free worker.
+static void blockedSubmitter(int rounds, int T, const std::string &ctx)
+{
+  if (T < 3 && !g_serialBackend)
+    return;
+  for (int rd = 0; rd < rounds; ++rd) {
+    // (counters live on the heap and are leaked when something is late: a late job may still write to them)
+    struct St
+    {
+      std::atomic<int> warm, childRan, parentDone, parentGaveUp;
+      St() : warm(0), childRan(0), parentDone(0), parentGaveUp(0) {}
+    };
+    St *st = new St();
+    // some ordinary traffic from this thread first, so that the workers have been stealing from different queues
+    int W = 1 + (rd % 5) * 3;
+    for (int i = 0; i < W; ++i)
+      schedule([st]() { st->warm.fetch_add(1); });
+    if (!waitUntil([&]() { return st->warm.load() == W; }, 30.0)) {
+      vh::violation("C02:schedule:not-executed-within-watchdog", "warm-up closures of the busy-submitter scenario not executed after 30 s", ctx);
+      watchdogExpired();
+      return;
+    }
+    bool viaAsync = (rd & 1) != 0;
+    schedule([st, viaAsync]() {
+      if (viaAsync) {
+        std::future<int> f = async([st]() -> int {
+          st->childRan.fetch_add(1);
+          return 7;
+        });
+        if (f.wait_for(std::chrono::seconds(20)) != std::future_status::ready)
+          st->parentGaveUp.store(1);
+      } else {
+        schedule([st]() { st->childRan.fetch_add(1); });
+        double t0 = vh::now();
+        while (st->childRan.load() == 0 && vh::now() - t0 < 20.0)
+          std::this_thread::yield();
+        if (st->childRan.load() == 0)
+          st->parentGaveUp.store(1);
+      }
+      st->parentDone.store(1);
+    });
+    bool done = waitUntil([&]() { return st->parentDone.load() != 0; }, 40.0);
+    if (!done || st->parentGaveUp.load()) {
+      vh::violation("C02:schedule:job-of-busy-submitter-not-executed-within-watchdog",
+                    std::string("round ") + std::to_string(rd) + ": a job handed to " + (viaAsync ? "async()" : "schedule()") +
+                        " from inside a running task had not run after 20 s while its submitter kept waiting for it (other workers were idle)",
+                    ctx);
+      watchdogExpired();
+      return;
+    }
+    if (st->childRan.load() != 1)
+      vh::violation("C02:schedule:executed-more-than-once", "the job of a busy submitter ran " + std::to_string(st->childRan.load()) + " times", ctx);
+    delete st;
+  }
+  vh::count("busy_submitter_rounds", rounds);
 }
 
 // ---- single submissions: one closure at a time, random idle gaps in between so that the workers are spinning,
@@ -364,6 +438,7 @@ static void asyncBatch(int n, int bodyDelay, const std::string &ctx)
     if (futs[id].wait_for(std::chrono::seconds(30)) != std::future_status::ready) {
       vh::violation("C02:async:future-not-ready-within-watchdog", std::string("future of async<") + R<T>::name() + "> not ready after 30 s", ctx + " id=" + std::to_string(id));
       exec.release();
+      watchdogExpired();
       return;
     }
     T v = futs[id].get();
@@ -397,6 +472,7 @@ static void asyncVoidAndMoveOnly(int n, const std::string &ctx)
     if (fv[id].wait_for(std::chrono::seconds(30)) != std::future_status::ready || fu[id].wait_for(std::chrono::seconds(30)) != std::future_status::ready) {
       vh::violation("C02:async:future-not-ready-within-watchdog", "future of async<void/unique_ptr> not ready after 30 s", ctx);
       exec.release();
+      watchdogExpired();
       return;
     }
     fv[id].get();
@@ -430,6 +506,8 @@ static void judgeStalls()
                   std::to_string(g_stalls.size()) + " of " + std::to_string(polls) + " polled AsyncTasks of this process did not start within 12 s", g_stalls[i]);
   g_stalls.clear();
 }
+
+static void judgeStallsFwd() { judgeStalls(); }
 
 template <typename T>
 static void asyncTaskScenario(int id, int timeline, int bodyDelayUs, const std::string &ctx)
@@ -550,6 +628,8 @@ static std::string describe(const Case &c, long k, int T)
     s += std::string("schedule burst of ") + std::to_string(c.size) + (c.nested ? " (each schedules a further task)" : "");
   else if (c.kind == 1)
     s += std::string("async<") + kTypes[c.type] + "> x" + std::to_string(c.size);
+  else if (c.kind == 4)
+    s += "busy submitter x" + std::to_string(c.size);
   else if (c.kind == 3)
     s += "single submissions x" + std::to_string(c.size) + " idle gaps 0.." + std::to_string(c.bodyDelay) + " us";
   else
@@ -600,6 +680,8 @@ static void runCase(const Case &c, long k, int T)
     vh::count("async_batches");
   } else if (c.kind == 3) {
     singleSubmissions(c.size, c.bodyDelay, ctx);
+  } else if (c.kind == 4) {
+    blockedSubmitter(c.size, T, ctx);
   } else {
     switch (c.type) {
     case 0: asyncTaskBatch<int>(c, ctx, r); break;
@@ -642,6 +724,18 @@ static std::vector<Case> buildCases(int T, bool asan, bool omp, bool internalBac
     v.push_back(c);
   }
   c.reinit = 0;
+  // a job handed over from inside a running task whose worker stays busy waiting for it
+  for (int rep = 0; rep < 2; ++rep) {
+    c.kind      = 4;
+    c.type      = 0;
+    c.timeline  = -1;
+    c.nested    = false;
+    c.bodyDelay = 0;
+    c.size      = (int)vh::tier(40, 400);
+    c.slowCtor = c.slowAssign = 0;
+    c.inject    = internalBackend && rep == 1 ? 100 : 0;
+    v.push_back(c);
+  }
   // single submissions with idle gaps around the workers' spin-then-sleep transition
   {
     int gaps[] = {0, 40, 300, 3000};
